@@ -440,6 +440,9 @@ async def e2e_chroot(ctx, tmp):
                 else:
                     paths.append((s % t.decode()).encode())
         paths += [b'//etc/hostname', b'/../../../../etc/hostname', b'//etc']
+        # relative forms that climb exactly one level above the root from /a (the directory of the fixed second
+        # argument of the two-path requests): the symlink-target validation used to lstat them (534f324)
+        paths += [b'../../.a', b'..///..//.a', b'../../outside/secret', b'../../outside', b'b/../../../outside/a/file']
         rng = ctx.rng
         extra = 400 if ctx.tier == 'thorough' else 60
         for _ in range(extra):
